@@ -31,7 +31,7 @@ match_cdata = re.compile(
 match_declaration = re.compile(
     r'^<!(?P<text>[^>]+)>$', re.DOTALL)
 match_processing_instruction = re.compile(
-    r'^<\?(?P<name>[\w.:-]+)(?P<text>.*?)\?>', re.DOTALL)
+    r'^<\?(?P<name>[^\s?]+)(?P<text>.*?)\?>', re.DOTALL)
 match_xml_declaration = re.compile(r'^<\?xml(?=[ /])', re.DOTALL)
 
 log = logging.getLogger('chameleon.parser')
